@@ -95,6 +95,11 @@ def _ops():
     # ---------------- length references
     op("bad-length-reference", "length-unknown-name")((lambda s, sp: s.ins is not None and s.ins.kind in ("field", "array") and isinstance(s.ins.length, str),
                                                        lambda s, sp: setattr(s.ins, "length", "no_such_length")))
+    # a numeric literal is digits only: a sign, an underscore or a blank makes it a (dangling) name
+    op("bad-length-reference", "length-literal-with-sign")((lambda s, sp: s.ins is not None and s.ins.kind in ("field", "array") and isinstance(s.ins.length, int) and getattr(s.ins, "value", None) is None,
+                                                            lambda s, sp: setattr(s.ins, "length", ("+%d", "-%d")[s.index % 2] % max(1, s.ins.length))))
+    op("bad-length-reference", "length-literal-with-underscore-or-blank")((lambda s, sp: s.ins is not None and s.ins.kind in ("field", "array") and isinstance(s.ins.length, int) and getattr(s.ins, "value", None) is None,
+                                                                           lambda s, sp: setattr(s.ins, "length", ("1_%d", " %d", "%d ", "0x%d")[s.index % 4] % s.ins.length)))
     op("bad-length-reference", "length-refers-to-plain-field")((lambda s, sp: s.ins is not None and s.ins.kind in ("field", "array") and isinstance(s.ins.length, str) and any(v.kind == "field" for v in s.names.values()),
                                                                 lambda s, sp: setattr(s.ins, "length", next(n for n, v in s.names.items() if v.kind == "field"))))
     op("bad-length-reference", "length-defined-later")((lambda s, sp: s.ins is not None and s.ins.kind == "length" and s.index + 1 < len(s.body) and getattr(s.body[s.index + 1], "length", None) == s.ins.name,
